@@ -176,6 +176,32 @@ func c12Producer(r *Run, t *tape.Tape) {
 				r.Fail("producer-location-mismatch", "260 is %s, given %q", diagOrAbsent(loc), p.Location)
 			}
 		}
+		// the envelope's protected header is the caller's base header plus the
+		// governed labels: nothing the caller put there disappears, whatever
+		// Go integer type the label was written with
+		for bk := range h.Protected {
+			var lbl *refcbor.Item
+			if v, ok := asInt64(bk); ok {
+				if v == refcose.LAlg || v == refcose.LHashAlg || (v == refcose.LPreimageCT && p.PreimageContentType != nil) || (v == refcose.LPayloadLoc && p.Location != "") {
+					continue
+				}
+				lbl = refcbor.Int(v)
+			} else if sv, ok := bk.(string); ok {
+				lbl = refcbor.Tstr(sv)
+			} else {
+				continue
+			}
+			found := false
+			for i := 0; i+1 < len(m.ProtMap.Elems); i += 2 {
+				if bytes.Equal(refcbor.CanonicalBytes(m.ProtMap.Elems[i]), refcbor.CanonicalBytes(lbl)) {
+					found = true
+				}
+			}
+			if !found {
+				r.Fail("producer-drops-base-header-parameter", "the base protected header carried label %s (Go key type %T); the envelope's protected header does not\nbase: %s\nenvelope: %s", refcbor.Diag(lbl), bk, class, hexShort(env))
+				return
+			}
+		}
 		if m.Payload.Major != refcbor.MBstr || !bytes.Equal(m.Payload.Data, p.HashValue) {
 			r.Fail("producer-payload-not-hash-value", "payload %s, hash value %x", refcbor.Diag(m.Payload), p.HashValue)
 		}
